@@ -14,4 +14,14 @@ theorem index_version_magic :
     BPTree.indexHeaderVersion = Gen.HEADER_VERSION ∧ BPTree.magicByte = Gen.INDEX_HEADER_MAGIC_BYTE ∧
     BPTree.magicByte = Gen.RECORD_MAGIC_BYTE ∧ Gen.HASH_LENGTH = 32 := by decide
 
+/-- the node-capacity / node-size arithmetic of the model is, definitionally, the arithmetic the translator reads out
+    of `bptree/serializer.rs` and `bptree/node.rs` -/
+theorem max_amount_formula (p : BPTree.Params) :
+    BPTree.maxAmount p = Gen.fn_max_nonleaf_node_capacity p.B p.K BPTree.nodeMetaSize := rfl
+theorem min_amount_formula (p : BPTree.Params) :
+    BPTree.minAmount p = Gen.fn_min_amount (BPTree.maxAmount p) := rfl
+theorem node_size_formula (p : BPTree.Params) (n : Nat) :
+    BPTree.nodeSize p n = Gen.fn_node_serialized_size_with_keys p.K n BPTree.nodeMetaSize := rfl
+theorem offset_size_is_u64 : BPTree.offsetSize = 8 ∧ BPTree.nodeMetaSize = 8 := by decide
+
 end Pearl.Tie.C09
